@@ -22,6 +22,9 @@ pub enum Topo {
     /// flatten(map(g)(outer)) with g(v) = inners[v mod len]
     FlatMap { outer: Box<Topo>, inners: Vec<Topo> },
     Share(Box<Topo>),
+    /// one shared node consumed by two branches of the same tree:
+    /// `let s = share(inner); merge!(map(f)(s.clone()), filter(p)(s))`
+    Diamond(u8, u8, Box<Topo>),
 }
 
 #[derive(Clone, Copy, Debug, Serialize, Deserialize, PartialEq, Eq, Hash)]
@@ -473,9 +476,18 @@ pub fn decode(profile: Profile, bytes: &[u8], max_steps: usize) -> Scenario {
         }
         Profile::Composed => {
             // root is always an operator
-            let k = 3 + g.d.below(10);
+            let k = 3 + g.d.below(11);
             let depth = 1 + g.d.below(2);
             match k {
+                13 => {
+                    // the shared upstream never answers a Pull synchronously: both branches pull it and a
+                    // synchronous answer would be a nested fan-out (outside C12's quantifier)
+                    no_sync = true;
+                    let f = g.d.below(5) as u8;
+                    let q = g.d.below(5) as u8;
+                    let inner = g.tree(depth - 1, false);
+                    Topo::Diamond(f, q, Box::new(inner))
+                }
                 3 => g.op(Op::Map, depth, true),
                 4 => g.op(Op::Filter, depth, true),
                 5 => g.op(Op::Scan, depth, true),
@@ -673,7 +685,8 @@ impl Topo {
             | Topo::Scan(_, _, t)
             | Topo::Take(_, t)
             | Topo::Skip(_, t)
-            | Topo::Share(t) => vec![t],
+            | Topo::Share(t)
+            | Topo::Diamond(_, _, t) => vec![t],
             Topo::Merge(ts) | Topo::Concat(ts) | Topo::Combine(ts) => ts.iter().collect(),
             Topo::Flatten { inners, .. } => inners.iter().collect(),
             Topo::FlatMap { outer, inners } => {
@@ -698,6 +711,7 @@ impl Topo {
             Topo::Flatten { .. } => "flatten",
             Topo::FlatMap { .. } => "flatmap",
             Topo::Share(_) => "share",
+            Topo::Diamond(..) => "diamond",
         }
     }
     pub fn visit<'a>(&'a self, f: &mut dyn FnMut(&'a Topo)) {
@@ -849,7 +863,7 @@ pub fn shrink_candidates(sc: &Scenario) -> Vec<Scenario> {
 fn topo_shrinks(t: &Topo) -> Vec<Topo> {
     let mut out = vec![];
     // replace the node by one of its children (every node of the tree yields i64)
-    if !matches!(t, Topo::Share(_)) {
+    if !matches!(t, Topo::Share(_) | Topo::Diamond(..)) {
         for c in t.children() {
             out.push(c.clone());
         }
@@ -900,6 +914,7 @@ fn topo_shrinks(t: &Topo) -> Vec<Topo> {
             Topo::Take(n, _) => Topo::Take(*n, Box::new(new)),
             Topo::Skip(n, _) => Topo::Skip(*n, Box::new(new)),
             Topo::Share(_) => Topo::Share(Box::new(new)),
+            Topo::Diamond(f, q, _) => Topo::Diamond(*f, *q, Box::new(new)),
             Topo::Merge(ts) => {
                 let mut v = ts.clone();
                 v[idx] = new;
